@@ -24,7 +24,7 @@ func DerivePublic(priv []byte) (x, y []byte, err error) {
 	}
 
 	var pubBytes []byte
-	pubBytes = pub.Bytes_Unsafe()
+	pubBytes = pub.Bytes() // constant-time conversion: Z depends on the private key
 	if len(pubBytes) != 65 {
 		// [priv]G is the point at infinity (priv is a multiple of n): there is no public key
 		return nil, nil, errors.New("private key yields the point at infinity")
@@ -71,7 +71,7 @@ func GenerateKey(rand io.Reader) (priv, x, y []byte, err error) {
 	}
 
 	var pubBytes []byte
-	pubBytes = pub.Bytes_Unsafe()
+	pubBytes = pub.Bytes() // constant-time conversion: Z depends on the private key
 	if len(pubBytes) != 65 {
 		err = errors.New("private key yields the point at infinity")
 		return
@@ -226,7 +226,7 @@ func SignHashed(rand io.Reader, priv, e []byte) (r, s []byte, err error) {
 		var eInt, rInt, sInt, rkInt, dInt, d1Int big.Int
 		var d1, d1Inv fiat.SM2ScalarElement
 
-		x := kG.GetAffineX_Unsafe() // 避免计算y坐标，可以节约计算量。由于x不需要保密，可以使用快速版本，但z的数值会泄露信息吗？TODO
+		x := kG.GetAffineX() // 避免计算y坐标，可以节约计算量。x不需要保密，但z依赖于k，因此使用常数时间的求逆 (Z depends on the nonce: invert it in constant time)
 
 		eInt.SetBytes(e)
 		rInt.Add(x, &eInt)
